@@ -1,5 +1,6 @@
 from __future__ import annotations
 
+import re
 import xml.dom.minidom as minidom
 from string import Formatter
 from typing import Any
@@ -128,18 +129,30 @@ class HTMLFormatter(Formatter):
         return html_escape(format(value, format_spec))
 
 
+# Characters that are not allowed in an XML 1.0 document.
+_XML_ILLEGAL_CHARS_RE = re.compile(
+    "[^\t\n\r\x20-\ud7ff\ue000-\ufffd\U00010000-\U0010ffff]"
+)
+
+
 def html_escape(text: object) -> str:
     # The string interpolation functions also take integers and other types.
     # Convert to string first.
     if not isinstance(text, str):
         text = f"{text}"
 
-    return (
+    text = (
         text.replace("&", "&amp;")
         .replace("<", "&lt;")
         .replace(">", "&gt;")
         .replace('"', "&quot;")
+        .replace("'", "&#39;")  # Attribute values can be single quoted too.
+        .replace("\r", "&#13;")  # A literal "\r" would be normalized to "\n".
     )
+
+    # Characters that are not allowed in an XML document at all would make
+    # the parser fail. Replace them. (Like `ansi_escape` does for "\x1b".)
+    return _XML_ILLEGAL_CHARS_RE.sub("?", text)
 
 
 FORMATTER = HTMLFormatter()
